@@ -16,3 +16,27 @@ Definition truth_pc_ok (m : module) (s : stages) : bool :=
   | Some h => st_eqb (vis_spec m h) s
   | None => false
   end.
+
+(** ** ground truth for constants, overrides and entry points: compared with the *real* output *)
+From W2W Require Import Out.
+Definition truth_consts_ok (o : out) (t : list out_const) : bool := list_eqb const_eqb (o_consts o) t.
+Definition truth_overrides_ok (o : out) (t : option out_overrides) : bool :=
+  option_eqb overrides_eqb (o_overrides o) t.
+Definition truth_entries_ok (o : out) (names : list string) (comp : list (string * (N * N * N)))
+    (frag : list (string * N)) (vert : list (string * list string)) : bool :=
+  list_eqb String.eqb (map snd (o_entry_consts o)) names
+  && list_eqb (pair_eqb String.eqb n3_eqb) (map (fun c => (cp_entry_lit c, cp_wg c)) (o_compute o)) comp
+  && list_eqb (pair_eqb String.eqb N.eqb) (map (fun f => (fe_fn f, fe_targets f)) (o_fentries o)) frag
+  && list_eqb (pair_eqb String.eqb (list_eqb String.eqb))
+              (map (fun v => (ve_fn v, map fst (ve_buffers v))) (o_ventries o)) vert.
+Definition on_ok (r : result out) (f : out -> bool) : bool := match r with Ok o => f o | _ => false end.
+
+Definition truth_pc_out_ok (o : out) (t : option (N * stages)) : bool :=
+  match t with
+  | None => match o_pc_stages o, o_pc_ranges o with None, [] => true | _, _ => false end
+  | Some (size, st) =>
+      match o_pc_stages o, o_pc_ranges o with
+      | Some s, [r] => st_eqb s st && pr_stages_const r && N.eqb (pr_start r) 0 && N.eqb (pr_end r) size
+      | _, _ => false
+      end
+  end.
